@@ -19,7 +19,7 @@ __BEGIN_DECLS
  *        users of the library.
  *        Because of this, our 'second type' encodings can include a starting
  *        off point of:
- *              2^6 - 1 + 2^14 - 1 + 2^22 -1 = 4210749
+ *              2^6 + 2^14 - 1 + 2^22 - 1 = 4210750
  *   Con: One byte only stores numbers up to 64. */
 
 /* SplitFullNoZero Data Layout */
@@ -30,7 +30,7 @@ __BEGIN_DECLS
  * 1 byte:
  * |00pppppp| (6 bits)
  *      Unsigned numeric value less than or equal to:
- *        2^6 - 1 = 64 (6 bits)
+ *        2^6 = 64 (6 bits holding value - 1)
  * 2 bytes:
  * |01pppppp|qqqqqqqq| (14 bits) (~16k)
  *      Unsigned numeric value less than or equal to:
@@ -56,27 +56,27 @@ __BEGIN_DECLS
  * 3 bytes:
  * |11000010|qqqqqqqq|rrrrrrrr|
  *      Unsigned numeric value less than or equal to:
- *        4210749 + 2^16 - 1 = 4276284 (~4M)
+ *        4210750 + 2^16 - 1 = 4276285 (~4M)
  * 4 bytes:
  * |11000011|qqqqqqqq|rrrrrrrr|ssssssss|
  *      Unsigned numeric value less than or equal to:
- *        4210749 + 2^24 - 1 = 20987964 (~20M)
+ *        4210750 + 2^24 - 1 = 20987965 (~20M)
  * 5 bytes:
  * |11000100|qqqqqqqq|rrrrrrrr|ssssssss|tttttttt|
  *      Unsigned numeric value less than or equal to:
- *        4210749 + 2^32 - 1 = 4299178044 (~4G)
+ *        4210750 + 2^32 - 1 = 4299178045 (~4G)
  * 6 bytes:
  * |11000101|qqqqqqqq|rrrrrrrr|ssssssss|tttttttt|vvvvvvvv|
  *      Unsigned numeric value less than or equal to:
- *        4210749 + 2^40 - 1 = 1099515838524 (~1T)
+ *        4210750 + 2^40 - 1 = 1099515838525 (~1T)
  * 7 bytes:
  * |11000110|qqqqqqqq|rrrrrrrr|ssssssss|tttttttt|vvvvvvvv|uuuuuuuu|
  *      Unsigned numeric value less than or equal to:
- *        4210749 + 2^48 - 1 = 281474980921404 (~281T)
+ *        4210750 + 2^48 - 1 = 281474980921405 (~281T)
  * 8 bytes:
  * |11000111|qqqqqqqq|rrrrrrrr|ssssssss|tttttttt|vvvvvvvv|uuuuuuuu|wwwwwwww|
  *      Unsigned numeric value less than or equal to:
- *        4210749 + 2^56 - 1 = 72057594042138684 (~72P)
+ *        4210750 + 2^56 - 1 = 72057594042138685 (~72P)
  * 9 bytes:
  * |11001000|qqqqqqqq|rrrrrrrr|ssssssss|tttttttt|
  *          |vvvvvvvv|uuuuuuuu|wwwwwwww|zzzzzzzz|
@@ -119,13 +119,13 @@ typedef enum varintSplitFullNoZeroByte {
     VARINT_SPLIT_FULL_NO_ZERO_BYTE_VAR_START__ =
         VARINT_SPLIT_FULL_NO_ZERO_VAR, /* 11000000 */
     VARINT_SPLIT_FULL_NO_ZERO_BYTE_1,  /* XX===NOT USED===XX; 11000001 */
-    VARINT_SPLIT_FULL_NO_ZERO_BYTE_2,  /* 4210749 + uint16_t; 11000010 */
-    VARINT_SPLIT_FULL_NO_ZERO_BYTE_3,  /* 4210749 + uint24_t; 11000011 */
-    VARINT_SPLIT_FULL_NO_ZERO_BYTE_4,  /* 4210749 + uint32_t; 11000100 */
-    VARINT_SPLIT_FULL_NO_ZERO_BYTE_5,  /* 4210749 + uint40_t; 11000101 */
-    VARINT_SPLIT_FULL_NO_ZERO_BYTE_6,  /* 4210749 + uint48_t; 11000110 */
-    VARINT_SPLIT_FULL_NO_ZERO_BYTE_7,  /* 4210749 + uint56_t; 11000111 */
-    VARINT_SPLIT_FULL_NO_ZERO_BYTE_8,  /* 4210749 + uint64_t; 11001000 */
+    VARINT_SPLIT_FULL_NO_ZERO_BYTE_2,  /* 4210750 + uint16_t; 11000010 */
+    VARINT_SPLIT_FULL_NO_ZERO_BYTE_3,  /* 4210750 + uint24_t; 11000011 */
+    VARINT_SPLIT_FULL_NO_ZERO_BYTE_4,  /* 4210750 + uint32_t; 11000100 */
+    VARINT_SPLIT_FULL_NO_ZERO_BYTE_5,  /* 4210750 + uint40_t; 11000101 */
+    VARINT_SPLIT_FULL_NO_ZERO_BYTE_6,  /* 4210750 + uint48_t; 11000110 */
+    VARINT_SPLIT_FULL_NO_ZERO_BYTE_7,  /* 4210750 + uint56_t; 11000111 */
+    VARINT_SPLIT_FULL_NO_ZERO_BYTE_8,  /* 4210750 + uint64_t; 11001000 */
     /* Ranges between 11001001 and 11111111 are available. */
 } varintSplitFullNoZeroByte;
 
@@ -143,7 +143,7 @@ typedef enum varintSplitFullNoZeroByte {
 #define varintSplitFullNoZeroEncodingWidthBytesExternal_(p)                    \
     (varintWidth)((p)[0] & 0x0f)
 
-/* There's a tiny 256 integer range of [4210750, 4211004] that causes
+/* There's a tiny 256 integer range of [4210751, 4211005] that causes
  * varintSplitFullNoZero to srhink from 3 bytes to 2 bytes even though a
  * previous integer range takes 3 bytes to store.  By default, we don't allow
  * varintSplitFullNoZero to shrink when storing larger numbers, but if you
